@@ -162,7 +162,7 @@ def translate_call(tree):
     if not (isinstance(h["ret"], ast.Name) and h["ret"].id == "bout"):
         raise Untranslatable("call() no longer returns the decoded output")
     return (
-        "(* %s:24 call(): argv, and the post-processing of the child's (status, stdout) *)\n"
+        "(* %s:%d call(): argv, and the post-processing of the child's (status, stdout) *)\n"
         "Definition call_argv (libname flag : str) : list str :=\n  [%s].\n\n"
         "Definition call_post (decode : list N -> option str) (altsep_is_backslash : bool)\n"
         "    (sp : spawn_result) : res str :=\n"
@@ -170,7 +170,7 @@ def translate_call(tree):
         "    if %s then Err %s else\n"
         "    match decode bout with\n    | None => Err %s\n    | Some bout =>\n"
         "      if %s then Err %s else Ok bout\n    end\n  end.\n"
-        % (SRC, "; ".join(items), e_spawn, rc, e_rc, e_dec, bst, e_bs))
+        % (SRC, py2coq.find_function(tree, "call").lineno, "; ".join(items), e_spawn, rc, e_rc, e_dec, bst, e_bs))
 
 
 def translate(repo):
@@ -215,8 +215,8 @@ def translate(repo):
         out.append(T.Trans(functions=sub_fns).function(fd, sig, pure=True))
         fns[name] = sig
     out.append(translate_call(tree))
-    out.append("Section WithPkgConfig.\n(* the result of call(libname, flag): pkgconfig.py:24 — a function of its arguments *)\n"
-               "Variable call : str -> str -> res str.\n")
+    out.append("Section WithPkgConfig.\n(* the result of call(libname, flag): pkgconfig.py:%d — a function of its arguments *)\n"
+               "Variable call : str -> str -> res str.\n" % py2coq.find_function(tree, "call").lineno)
     fns["call"] = T.Fn("call", [T.STR, T.STR], T.STR, monadic=True)
     kw = nested["kwargs"]
     if T.free_names(kw) - set(fns) - {"sys"}:
@@ -844,10 +844,23 @@ MANIFEST = dict(
          "order-preserving selection of its tokens (prefix stripped, -D split at the first '=') from the concatenation "
          "over the packages in call order; merge_flags concatenates per-key lists (cfg1 first) and raises only TypeError; "
          "any failing call gives an exception, PkgConfigError when call raises nothing else; call() returns the output "
-         "iff status 0, decodable, backslash-free. The model is rebuilt from the source each run, so an edit changes "
-         "the Gallina the theorems are checked against.",
+         "iff status 0, decodable, backslash-free. End to end, with the real call() = regenerated call_post applied to the "
+         "child spawned with the regenerated call_argv (real_call, C35/Proofs2.v; spawn and decode arbitrary): "
+         "flags_from_pkgconfig raises nothing but PkgConfigError (C35_end_to_end_errors: discharges the hypothesis of "
+         "C35_failure_raises part 2); when every run is good the result routes the tokens of the decoded texts in call order "
+         "(C35_end_to_end_ok); one run that cannot be started / exits non-zero / is undecodable / has a backslash makes the "
+         "whole call raise PkgConfigError (C35_end_to_end_failure). Key set of the result (C35_result_keys): {} for no "
+         "package, otherwise exactly the six keywords, each once, each a list. The model is rebuilt from the source each "
+         "run, so an edit changes the Gallina the theorems are checked against (merge_flags included: a change of what "
+         "extend() receives is outside the translator's subset -> fallback = broken obligation, or changes the Gallina "
+         "and breaks C35_merge_flags_concat).",
     note="Trusted: Coq kernel; the translator and its primitive library (validated against CPython each run); "
-         "decode as an oracle; reading: a prefix designates a keyword within its own stream (DESIGN Appendix B).",
+         "decode as an oracle (harness: utf-8; the code binds sys.getfilesystemencoding() at import); spawn "
+         "(subprocess.Popen + communicate) is an input; the shape of call() around the 8 translated holes is a pinned "
+         "skeleton (CALL_SKELETON), call_post is a Gallina template filled from it; the stderr branch (message only) and "
+         "list aliasing between merge_flags arguments are not modelled; which call fails FIRST is not named by a theorem "
+         "(C35_end_to_end_failure gives the class, which is the same for every failure). Reading: a prefix designates a "
+         "keyword within its own stream (DESIGN Appendix B).",
     design_ref="DESIGN.md §4 C35")
 
 
